@@ -260,6 +260,7 @@ def drive(prop, tier, seed):
     if tier == "thorough":
         gates = gates + getattr(mod, "GATES_THOROUGH", [])
     missing = [g for g in gates if counters.get(g, 0) <= 0]
+    missing += [g + "!=0" for g in getattr(mod, "GATES_ZERO", []) if counters.get(g, 0) != 0]
 
     # known findings
     known = load_known().get(prop, {})
@@ -284,8 +285,11 @@ def drive(prop, tier, seed):
             coverage.update(mod.finalize(tier, counters, notes) or {})
         except Exception:
             problems.append("finalize failed: " + traceback.format_exc())
+    import re as _re
+
     for k, v in notes.items():
-        coverage.setdefault(k, v)
+        if not _re.search(r"_w\d+$", k):
+            coverage.setdefault(k, v)
 
     verdict = "held-on-observed"
     if new_viol:
